@@ -285,7 +285,7 @@ def cbmc_run(tu, entry, unwind, unwindset, timeout, mem_gb, flags, defs, trace=T
     # trace=False is the loop-bound discovery mode: only unwinding assertions are checked
     base = CBMC_BASE if trace else ["--unwinding-assertions", "--drop-unused-functions", "--no-malloc-may-fail", "--object-bits", "12",
                                     "--max-field-sensitivity-array-size", "2048", "--no-standard-checks", "--no-assertions", "--verbosity", "8"]
-    cmd = ["cbmc", tu.c, "-I", ENGINE, "-DVP_TRACE=%d" % TRACE_N] + defs + ["--function", "vp_entry_" + entry, "--unwind", str(unwind)] + base + flags
+    cmd = ["cbmc", tu.c, "-I", ENGINE, "-DVP_TRACE=%d" % TRACE_N] + defs + ["--function", "vp_entry_" + entry, "--unwind", str(unwind)] + flags + base   # per-obligation flags first: CBMC keeps the first occurrence of an option
     if unwindset:
         cmd += ["--unwindset", ",".join("%s:%d" % (k, v) for k, v in sorted(unwindset.items()))]
     rc, out, err, secs = run(cmd, timeout=timeout, mem_gb=mem_gb)
